@@ -121,6 +121,43 @@ func traversable(r *Run, pj *simdjson.ParsedJson, what string) bool {
 		r.violate("untraversable", "MarshalJSON", fmt.Sprintf("%s: accepted, but MarshalJSON fails: %v", what, err))
 		return false
 	}
+	// the Elements of a top-level object stay usable after being marshalled (a read)
+	var problem string
+	err := safely(func() error {
+		it := pj.Iter()
+		if it.Advance() != simdjson.TypeRoot {
+			return nil
+		}
+		t, root, e := it.Root(nil)
+		if e != nil || t != simdjson.TypeObject {
+			return nil
+		}
+		obj, e := root.Object(nil)
+		if e != nil {
+			return nil
+		}
+		els, e := obj.Parse(nil)
+		if e != nil || els == nil {
+			return nil
+		}
+		first, e1 := els.MarshalJSON()
+		if e1 != nil {
+			return nil
+		}
+		second, e2 := els.MarshalJSON()
+		if e2 != nil || !bytes.Equal(first, second) {
+			problem = fmt.Sprintf("Elements.MarshalJSON a second time on the same Elements: %v (%d bytes against %d)", e2, len(second), len(first))
+		}
+		return nil
+	})
+	if err != nil {
+		walkerFail(r, "untraversable", what+": Elements of the top-level object", err)
+		return false
+	}
+	if problem != "" {
+		r.violate("untraversable", "Elements-after-marshal", what+": "+problem)
+		return false
+	}
 	return true
 }
 
